@@ -449,9 +449,18 @@ impl Graph {
         graph.root = dfa_lookup[&start_id];
         graph.states = vec![StateData::new(); dfa_lookup.len()];
 
+        #[cfg(feature = "verif_hooks")]
+        crate::verif::reset_matches();
+
         // Now, for each state, construct its edges and determine which leaves it matches
         for (dfa_id, state_id) in dfa_lookup.iter() {
             let dfa_id = *dfa_id;
+
+            #[cfg(feature = "verif_hooks")]
+            crate::verif::record_matches(
+                state_id.0,
+                iter_matches(dfa_id, &graph.dfa).map(|l| l.0).collect(),
+            );
 
             let state_data = &mut graph.states[state_id.0];
             match Self::get_state_type(dfa_id, &graph.leaves, &graph.dfa) {
